@@ -629,7 +629,7 @@ fn gen_op_raw<B: Backend>(rng: &mut Rng, p: &Pool<B>, force_ok: bool) -> Op {
         29 => Op::MakeAscii(h, rng.chance(1, 2)),
         30 => Op::ToAscii(h, rng.chance(1, 2)),
         // small counts, and counts whose product with the length overflows usize (wrapping to a small number) or isize
-        31 => Op::Repeat(h, if len >= 1 && rng.chance(1, 4) { match rng.below(3) { 0 => usize::MAX, 1 => if len >= 2 { usize::MAX / len + 1 } else { usize::MAX }, _ => if len >= 2 { (1usize << 63) / (len.next_power_of_two() / 2).max(1) } else { 1usize << 63 } } } else { *rng.pick(&[0, 1, 2, 3, 5]) }),
+        31 => Op::Repeat(h, if len >= 1 && rng.chance(1, 4) { match rng.below(3) { 0 => usize::MAX, 1 => if len >= 2 { usize::MAX / len + 1 } else { usize::MAX }, _ => if len >= 2 { (1usize << 63) / (len.next_power_of_two() / 2).max(1) } else { 1usize << 63 } } } else { *rng.pick(&[0, 1, 2, 3, 5, 6, 7, 10, 11, 13, 23]) }),
         32 => {
             let mut script = vec![];
             let mut cur = len;
@@ -678,6 +678,9 @@ pub fn corpus(ty: Ty) -> Vec<Vec<Op>> {
         vec![Op::Borrowed(b(40)), Op::Clone(0), Op::Slice(0, Included(3), Excluded(9)), Op::MakeAscii(0, true), Op::PushSlice(1, b(1)), Op::IntoOwned(2), Op::Truncate(1, 2)],
         vec![Op::FromSlice(b(30)), Op::Clone(0), Op::ShrinkTo(0, 0), Op::WithCapacity(100), Op::ShrinkTo(3, 50), Op::ShrinkTo(3, 10), Op::ShrinkToFit(0)],
         vec![Op::FromSlice(b(12)), Op::Repeat(0, 2), Op::Repeat(0, 1), Op::Repeat(0, 0), Op::Repeat(1, 3), Op::ToAscii(4, true)],
+        // every count whose result still fits inline, from short sources (inline, and a borrowed 1..3-byte prefix of a longer text)
+        vec![Op::FromSlice(b(1)), Op::Repeat(0, 6), Op::Repeat(0, 7), Op::Repeat(0, 10), Op::Repeat(0, 15), Op::Repeat(0, 23), Op::Repeat(0, 24), Op::FromSlice(b(2)), Op::Repeat(7, 6), Op::Repeat(7, 11), Op::FromSlice(b(3)), Op::Repeat(10, 7), Op::Repeat(10, 8)],
+        vec![Op::Borrowed(b(40)), Op::Slice(0, Included(0), Excluded(1)), Op::Repeat(1, 6), Op::Repeat(1, 13), Op::Slice(0, Included(3), Excluded(5)), Op::Repeat(4, 7), Op::Repeat(4, 11), Op::Slice(0, Included(1), Excluded(4)), Op::Repeat(7, 6)],
         // products that wrap around usize to a small number (must panic like std, in release too)
         vec![Op::FromSlice(b(2)), Op::Repeat(0, 1 << 63), Op::Borrowed(b(32)), Op::Repeat(1, 1 << 59), Op::Repeat(0, usize::MAX), Op::FromSlice(b(32)), Op::Repeat(2, 1 << 59), Op::Repeat(2, (1 << 59) + 1)],
         // a short heap value (with_capacity lineage) that is shared, then edited through the copying accessors
@@ -741,8 +744,30 @@ fn run_case<B: Backend>(bk: &str, ty: Ty, ops_src: &mut dyn FnMut(&Pool<B>, usiz
         if matches!(op, Op::WithCapacity(_)) { used_with_capacity = true; }
         let pre = alloc::snap();
         breadcrumb(&format!("bytes {} bk={} ty={}: {} ; {} -> ?", case_desc, bk, ty.name(), trace.join(" ; "), op.coq()));
+        // ordering probe (C04 in the single-threaded driver): if the op's subject shares its buffer with another live handle,
+        // sample that buffer's share count, through the OTHER handle, at the first allocation the op makes (the destination of the copy)
+        let subject = match &op { Op::Push(h, ..) | Op::PushSlice(h, ..) | Op::Pop(h) | Op::Truncate(h, ..) | Op::Clear(h) | Op::ShrinkTo(h, ..) | Op::ShrinkToFit(h) | Op::ToMutWrite(h, ..) | Op::MakeAscii(h, ..)
+            | Op::Mutate(h, ..) | Op::IntoOwned(h) | Op::IntoVec(h) | Op::VecFrom(h) if pool.live(*h) => Some(*h), _ => None };
+        let mut probed: Option<usize> = None;
+        if let Some(h) = subject {
+            // (an empty view is "copied" without any allocation: the first allocation of the op is then not a copy destination)
+            if let Some(me) = pool.hs[h].as_ref().unwrap().raw().verif_repr().filter(|r| r[5] >= 1) {
+                if let Some(other) = (0..pool.hs.len()).find(|&i| i != h && pool.hs[i].as_ref().map_or(false, |x| x.raw().verif_repr().map_or(false, |q| q[0] == me[0]))) {
+                    fn read_count<B: Backend>(p: usize) -> usize { unsafe { &*(p as *const HipByt<'static, B>) }.verif_repr().map_or(usize::MAX, |r| r[6]) }
+                    let o: &HipByt<'static, B> = pool.hs[other].as_ref().unwrap().raw();
+                    alloc::arm_probe(o as *const _ as usize, read_count::<B>);
+                    probed = Some(me[6]);
+                }
+            }
+        }
         let out = pool.exec(&op);
         alloc::set_window(false);
+        let probe_min = alloc::disarm_probe();
+        if let (Some(before), Some(probe_min)) = (probed, probe_min) {
+            if probe_min < before {
+                pool.viol.push(format!("{} released its share of the shared buffer (count {} -> {}) BEFORE allocating the private copy of its content: the copy reads a buffer this value no longer keeps alive", op.coq().split(' ').next().unwrap(), before, probe_min));
+            }
+        }
         let mut s = alloc::snap();
         if out == Out::Panic {
             // the panic machinery allocates: event counters are restored, the live count is not touched
@@ -931,6 +956,53 @@ fn repr_sweep<B: Backend>(bk: &str, thorough: bool, sum: &mut Summary, w: &mut C
             };
             run_case::<B>(bk, ty, &mut src, sum, w, &format!("repr-sweep len={}", n));
         }
+    }
+}
+
+/// Trait methods with a provided implementation that an impl may override (`Clone::clone_from`), and `Default`: the result must
+/// be what the plain method gives -- for clone_from: exactly the representation `src.clone()` has (a heap source is SHARED, at
+/// the same offset, with no allocation), whatever the destination held before.  Oracle only (no model op).
+fn trait_methods<B: Backend>(bk: &str, sum: &mut Summary) {
+    let text: &'static [u8] = b"0123456789abcdefghijklmnopqrstuvwxyzABCDEFGHIJKLMNOPQRSTUVWXYZ";
+    let mk = |rep: usize| -> HipByt<'static, B> { match rep {
+        0 => HipByt::new(), 1 => HipByt::from(&text[..10]), 2 => HipByt::borrowed(&text[..40]), 3 => HipByt::from(&text[..40]),
+        4 => HipByt::<B>::from(text).slice(5..45), 5 => { let mut v = Vec::with_capacity(200); v.extend_from_slice(&text[..30]); HipByt::from(v) },
+        _ => { let mut h = HipByt::with_capacity(100); h.push_slice(&text[..8]); h } } };
+    let names = ["empty", "inline", "borrowed", "heap", "heap-view", "heap with spare capacity", "short heap (with_capacity)"];
+    for src_rep in 0..7 { for dst_rep in 0..7 { for shared_dst in [false, true] {
+        sum.evaluations += 1;
+        let src = mk(src_rep);
+        let mut dst = mk(dst_rep);
+        let keep = if shared_dst { Some(dst.clone()) } else { None };
+        let want = src.clone();           // what a plain clone looks like (shares when it can)
+        drop(want);
+        let before = src.verif_repr().map(|r| r[6]);
+        alloc::reset_window_counters();
+        let a0 = alloc::snap();
+        alloc::window(|| dst.clone_from(&src));
+        let a1 = alloc::snap();
+        let what = format!("trait_methods clone_from: {} <- {} (destination {}) bk={} prof={}", names[dst_rep], names[src_rep], if shared_dst { "shared with a clone" } else { "sole owner" }, bk, profile());
+        let mut bad: Vec<String> = vec![];
+        if dst.as_slice() != src.as_slice() { bad.push(format!("content {} instead of {}", hex(dst.as_slice()), hex(src.as_slice()))); }
+        if kind_of(&dst) != kind_of(&src) || dst.is_normalized() != src.is_normalized() { bad.push(format!("representation {} instead of {}", kind_of(&dst), kind_of(&src))); }
+        if let (Some(s), false) = (src.verif_repr(), bk == "BUnique") {
+            match dst.verif_repr() {
+                Some(d) if d[0] == s[0] && d[4] == s[4] && d[5] == s[5] => { if Some(s[6]) != before.map(|c| c + 1) { bad.push(format!("share count {} after clone_from, {:?} before", s[6], before)); } }
+                other => bad.push(format!("the destination does not share the source's buffer at the same offset ({:?} vs {:?})", other.map(|d| (d[0], d[4], d[5])), (s[0], s[4], s[5]))),
+            }
+            if a1.allocs != a0.allocs { bad.push(format!("clone_from of a shareable heap value allocated {} block(s)", a1.allocs - a0.allocs)); }
+        }
+        if src.is_borrowed() && dst.as_ptr() != src.as_ptr() { bad.push("a clone of a borrowed value does not point at the borrowed data".into()); }
+        if let Some(k) = &keep { if k.as_slice() != mk(dst_rep).as_slice() { bad.push("the destination's former co-owner changed".into()); } }
+        if !bad.is_empty() { sum.violation(format!("{{\"what\":{},\"observed\":{},\"expected\":\"exactly what src.clone() gives\"}}", jstr(&what), jstr(&bad.join(" | ")))); }
+        // the wrappers forward clone_from too
+        let (ss, mut ds) = (HipStr::<B>::try_from(mk(src_rep)).unwrap(), HipStr::<B>::try_from(mk(dst_rep)).unwrap());
+        ds.clone_from(&ss);
+        if ds.as_bytes() != ss.as_bytes() || kind_of(ds.verif_bytes()) != kind_of(ss.verif_bytes()) { sum.violation(format!("{{\"what\":{},\"observed\":\"content or representation differs\",\"expected\":\"exactly what src.clone() gives\"}}", jstr(&what.replace("clone_from:", "HipStr clone_from:")))); }
+    } } }
+    sum.evaluations += 4;
+    if !(HipByt::<B>::default().is_inline() && HipByt::<B>::default().is_empty() && HipStr::<B>::default().is_inline() && Os::<B>::default().is_inline() && Pth::<B>::default().is_inline()) {
+        sum.violation(format!("{{\"what\":{},\"observed\":\"not an empty inline value\",\"expected\":\"empty, inline, no allocation\"}}", jstr(&format!("trait_methods Default::default() bk={}", bk))));
     }
 }
 
@@ -1243,6 +1315,7 @@ pub fn run(out_dir: &Path, tier: &str, seed: u64, rest: &[String]) {
     wrappers_api::<Arc>("BArc", &mut sum);
     wrappers_api::<Rc>("BRc", &mut sum);
     wrappers_api::<Unique>("BUnique", &mut sum);
+    trait_methods::<Arc>("BArc", &mut sum); trait_methods::<Rc>("BRc", &mut sum); trait_methods::<Unique>("BUnique", &mut sum);
     w.flush();
     sum.files = w.files.clone();
     sum.notes.push(format!("profile={} allocator_errors={}", profile(), alloc::error_detail()));
